@@ -5,7 +5,7 @@
 From RU Require Import Base.Prelude Base.Utf8 Model.AsciiSet Gen.Tables
   Model.PercentEncoding Model.HostT Model.UrlRecord Model.Parser Model.Setters Spec.Whatwg
   Proofs.C02_Parts Proofs.C01_Tables Proofs.C08_Input
-  Proofs.C01_EqRun Proofs.C01_EqEnc Proofs.C01_EqApi Proofs.C01_EqOpaque.
+  Proofs.C01_EqRun Proofs.C01_EqEnc Proofs.C01_EqApi Proofs.C01_EqOpaque Proofs.C01_EqRef.
 
 (* outcome of the comparison: the specification succeeds with su, and the model either reports that
    the serialization outgrew u32 (ParseError::Overflow, which the Standard does not have) or succeeds
@@ -52,4 +52,114 @@ Proof.
   assert (starts_with_cp 47 (ntnl rem) = false) as H47 by (destruct (starts_with_cp 47 (ntnl rem)); [discriminate | reflexivity]).
   exact (eq_opaque dbg hp hpo hd ovr shp shs input sch rem Hu Hs (not_special_type sch Hns)
            (split_of_starts_with_cp rem H47)).
+Qed.
+
+(* ---------- references against a related base ---------- *)
+(* the specification succeeds with su'; the model reports Overflow or succeeds with a record that is
+   related to su' again (in particular: same ten API strings) *)
+Definition agree_rel (dbg : bool) (shs : spec_host -> list N) (m : pres url) (s : parse_outcome) : Prop :=
+  exists su, s = BDone su
+    /\ (m = PErr Overflow \/ exists u, m = POk u /\ related dbg shs u su).
+
+Lemma agree_rel_ok dbg shs m s : agree_rel dbg shs m s -> agree_ok dbg shs m s.
+Proof.
+  intros (su & E & [K|(u & K & R)]); exists su; (split; [exact E|]); [left; exact K|].
+  right. exists u. split; [exact K | exact (rel_api _ _ _ _ R)].
+Qed.
+
+Definition in_class_fragment_only (input : list N) : bool := starts_with_cp 35 (spec_clean input).
+Definition in_class_query_only (sb : spec_url) (input : list N) : bool :=
+  negb (has_opaque_path sb) && starts_with_cp 63 (spec_clean input).
+(* no scheme, not "#...", base with an opaque path: failure on both sides *)
+Definition in_class_opaque_base_fail (sb : spec_url) (input : list N) : bool :=
+  has_opaque_path sb
+  && match spec_scheme (spec_clean input) with None => true | Some _ => false end
+  && negb (starts_with_cp 35 (spec_clean input)).
+
+Theorem class_fragment_only dbg hp hpo hd shp shs input b sb : usv_list input -> related dbg shs b sb ->
+  in_class_fragment_only input = true ->
+  agree_rel dbg shs (parse_url dbg hp hpo hd None (Some b) input) (spec_basic_url_parse shp input (Some sb)).
+Proof.
+  intros Hu R Hc. unfold in_class_fragment_only in Hc.
+  destruct (spec_clean input) as [|c f] eqn:E; [discriminate|]. cbn [starts_with_cp] in Hc.
+  apply N.eqb_eq in Hc. subst c.
+  exact (eq_fragment_only dbg hp hpo hd shp shs input b sb f Hu R E).
+Qed.
+
+Theorem class_query_only dbg hp hpo hd shp shs input b sb : usv_list input -> related dbg shs b sb ->
+  in_class_query_only sb input = true ->
+  agree_rel dbg shs (parse_url dbg hp hpo hd None (Some b) input) (spec_basic_url_parse shp input (Some sb)).
+Proof.
+  intros Hu R Hc. unfold in_class_query_only in Hc. apply andb_true_iff in Hc. destruct Hc as [H1 H2].
+  destruct (spec_clean input) as [|c q] eqn:E; [discriminate|]. cbn [starts_with_cp] in H2.
+  apply N.eqb_eq in H2. subst c.
+  assert (has_opaque_path sb = false) as Hop by (destruct (has_opaque_path sb); [discriminate | reflexivity]).
+  exact (eq_query_only dbg hp hpo hd shp shs input b sb q Hu R Hop E).
+Qed.
+
+Theorem class_opaque_base_fail dbg hp hpo hd shp shs input b sb : related dbg shs b sb ->
+  in_class_opaque_base_fail sb input = true ->
+  (exists u, spec_basic_url_parse shp input (Some sb) = BFailure u)
+  /\ parse_url dbg hp hpo hd None (Some b) input = PErr RelativeUrlWithCannotBeABaseBase.
+Proof.
+  intros R Hc. unfold in_class_opaque_base_fail in Hc.
+  apply andb_true_iff in Hc. destruct Hc as [Hc H3]. apply andb_true_iff in Hc. destruct Hc as [H1 H2].
+  apply (eq_opaque_base_fails dbg hp hpo hd shp shs input b sb R H1).
+  - destruct (spec_scheme (spec_clean input)); [discriminate | reflexivity].
+  - destruct (starts_with_cp 35 (spec_clean input)); [discriminate | reflexivity].
+Qed.
+
+(* parse results of the opaque class are related bases *)
+Theorem class_opaque_related dbg hp hpo hd ovr shp shs input : usv_list input -> in_class_opaque input = true ->
+  agree_rel dbg shs (parse_url dbg hp hpo hd ovr None input) (spec_basic_url_parse shp input None).
+Proof.
+  intros Hu Hc. unfold in_class_opaque in Hc. rewrite spec_clean_is_ntnl_trim in Hc.
+  destruct (spec_scheme (ntnl (input_new_trim_c0 input))) as [[sch rest]|] eqn:Es; [|discriminate].
+  apply andb_true_iff in Hc. destruct Hc as [H1 H2].
+  destruct (spec_scheme_model _ _ _ Es) as (rem & Hs & <-).
+  assert (is_special_scheme sch = false) as Hns by (destruct (is_special_scheme sch); [discriminate | reflexivity]).
+  assert (starts_with_cp 47 (ntnl rem) = false) as H47 by (destruct (starts_with_cp 47 (ntnl rem)); [discriminate | reflexivity]).
+  pose proof (not_special_type sch Hns) as Ht. pose proof (split_of_starts_with_cp rem H47) as Hsp.
+  eexists. split; [exact (spec_opaque shp input sch rem Hs Ht Hsp)|].
+  destruct (model_opaque dbg hp hpo hd ovr shp input sch rem Hu Hs Ht Hsp) as [E|[E K]]; [left; exact E|].
+  right. eexists. split; [exact E|]. apply related_opaque. exact K.
+Qed.
+
+(* ---------- the proved classes, assembled ---------- *)
+(* comparison of outcomes: success with the same ten API strings (or the model's Overflow), or failure
+   on both sides *)
+Definition agree (dbg : bool) (shs : spec_host -> list N) (m : pres url) (s : parse_outcome) : Prop :=
+  match s with
+  | BDone su => m = PErr Overflow \/ exists u, m = POk u /\ api_of_model dbg u = Some (spec_api_list shs su)
+  | BFailure _ => exists e, m = PErr e
+  | BOutOfFuel => False
+  end.
+
+Lemma agree_of_ok dbg shs m s : agree_ok dbg shs m s -> agree dbg shs m s.
+Proof. intros (su & -> & K). exact K. Qed.
+
+Definition base_rel (dbg : bool) (shs : spec_host -> list N) (b : option url) (sb : option spec_url) : Prop :=
+  match b, sb with
+  | None, None => True
+  | Some x, Some y => related dbg shs x y
+  | _, _ => False
+  end.
+
+Definition in_proved_class (sbase : option spec_url) (input : list N) : bool :=
+  match sbase with
+  | None => in_class_opaque input
+  | Some sb => in_class_fragment_only input || in_class_query_only sb input || in_class_opaque_base_fail sb input
+  end.
+
+Theorem partial_equivalence dbg hp hpo hd shp shs input base sbase :
+  usv_list input -> base_rel dbg shs base sbase -> in_proved_class sbase input = true ->
+  agree dbg shs (parse_url dbg hp hpo hd None base input) (spec_basic_url_parse shp input sbase).
+Proof.
+  intros Hu Hb Hc. destruct base as [b|]; destruct sbase as [sb|]; cbn [base_rel] in Hb; try contradiction.
+  - cbn [in_proved_class] in Hc. apply orb_true_iff in Hc. destruct Hc as [Hc|Hc]; [apply orb_true_iff in Hc; destruct Hc as [Hc|Hc]|].
+    + apply agree_of_ok, agree_rel_ok. apply class_fragment_only; assumption.
+    + apply agree_of_ok, agree_rel_ok. apply class_query_only; assumption.
+    + destruct (class_opaque_base_fail dbg hp hpo hd shp shs input b sb Hb Hc) as [[u ->] ->].
+      cbn [agree]. eexists. reflexivity.
+  - cbn [in_proved_class] in Hc. apply agree_of_ok. apply class_opaque; assumption.
 Qed.
